@@ -86,8 +86,8 @@ class Read:
 
 
 class LoopFrame:
-    def __init__(self, fid, kind, count, lid=None):
-        self.fid, self.kind, self.count, self.lid = fid, kind, count, lid
+    def __init__(self, fid, kind, count, lid=None, depth=0):
+        self.fid, self.kind, self.count, self.lid, self.depth = fid, kind, count, lid, depth
 
 
 class Pool:
@@ -185,6 +185,10 @@ class Sim:
         self.none_uses = []        # (ctx, node, text)
         self.unbound = []          # (ctx, node, name, function): process global assigned without `global`
         self.relem_uses = []       # (ctx, node): a value yielded by the result iterator handed to a call
+        self.allframes = {}
+        self.loops = []
+        self.overlaps = []         # (ctx, node, text): a read whose overlap with an earlier store could not be decided
+        self.unbound_locals = []   # (ctx, node, name, function)
         self.atom_nodes = {}       # atom -> spellings (normalised dumps) of the tests that consulted it
         self.attr_stores = []      # (ctx, node)
         self.depth = 0
@@ -237,6 +241,16 @@ class Sim:
                 # the buffer itself (handed around as a (buffer, shape) pair): its content is what the one shaped view of it holds
                 return ("buffer", self.content(("ref", oid, next(iter(shapes)), ()), record))
 
+        def closed(ev):
+            # the loops the store was made in and that have ended since: the outermost one (task / serial frequency loop) is compared
+            # separately, an inner one is part of the content (its number of iterations matters)
+            out = []
+            for f in ev.frames:
+                if f not in cur:
+                    fo = self.allframes.get(f)
+                    out.append(("outer",) if fo is None or fo.depth == 0 else ("inner", fo.count if fo.count is not None else NONE))
+            return tuple(out)
+
         def upto(k, sel):
             while k > 0:
                 ev = evs[k - 1]
@@ -245,8 +259,9 @@ class Sim:
                 if ev.shape != shape:
                     if ev.sel == () and sel == ():
                         return ("reshaped", ev.value, shape if shape is not None else NONE)
-                    raise Unsup(f"object created at line {getattr(obj.node, 'lineno', '?')} is used through views of different shapes")
-                kind, rest = relation(ev.sel, sel)
+                    kind, rest = "unknown", None
+                else:
+                    kind, rest = relation(ev.sel, sel)
                 if kind == "disjoint":
                     k -= 1
                     continue
@@ -255,9 +270,11 @@ class Sim:
                 if kind == "acovers":
                     return mkidx(ev.value, rest)
                 if kind == "bcovers":
-                    n = sum(1 for f in ev.frames if f not in cur)
-                    return ("upd", upto(k - 1, sel), rest, ev.value, n)
-                raise Unsup(f"cannot decide whether [{', '.join(show(x) for x in ev.sel)}] and [{', '.join(show(x) for x in sel)}] overlap")
+                    return ("upd", upto(k - 1, sel), rest, ev.value, closed(ev))
+                # overlap undecided (two different symbolic indices on one axis, or two views of different shape): the content is described as
+                # it is - "whatever is at sel after a store at ev.sel" -, which two equal programs describe equally
+                self.overlaps.append((self.ctx, self.cur_node, f"[{', '.join(show(x) for x in ev.sel)}] / [{', '.join(show(x) for x in sel)}]"))
+                return ("mayupd", upto(k - 1, sel), ("shape", ev.shape if ev.shape is not None else NONE) + tuple(ev.sel), ev.value, closed(ev))
             if record:
                 obj.init_reads.append((self.ctx, tuple(f.fid for f in self.frames), self.cur_node))
             if obj.init in (ZEROS, EMPTY):
@@ -519,7 +536,8 @@ class Sim:
                 self.unbound.append((self.ctx, self.cur_node, name, fr.fn.name))
                 fr.globals_decl = set(fr.globals_decl) | {name}
                 return self.read_global((fr.rel, name))
-            raise Unsup(f"local `{name}` of {fr.fn.name} read before it is bound on this path")
+            self.unbound_locals.append((self.ctx, self.cur_node, name, fr.fn.name))
+            return ("unboundlocal", name)
         return self.lookup_module(name, fr.rel)
 
     def bind(self, name, v, fr):
@@ -1015,7 +1033,8 @@ class Sim:
                 self.call_value(pool.initializer, list(ia[1:]), {}, node)
             self.ctx = ("task", L.lid)
             self.fid += 1
-            fr = LoopFrame(self.fid, "task", cnt, L.lid)
+            fr = LoopFrame(self.fid, "task", cnt, L.lid, depth=len(self.frames))
+            self.allframes[fr.fid] = fr
             L.fid = fr.fid
             self.frames.append(fr)
             lv = ("lv", len(self.frames) - 1)
@@ -1077,6 +1096,8 @@ class Sim:
                 self.heap[base[1]].entries[items[0]] = v
             elif base == NONE:
                 self.none_uses.append((self.ctx, t, "store into None"))
+            elif any(is_tag(x, "unboundlocal", "oob") for x in subterms(base)):
+                pass        # already recorded: the statement raises
             else:
                 raise Unsup(f"store into `{ast.unparse(t.value)}` whose value is not a tracked object")
         elif isinstance(t, ast.Attribute):
@@ -1188,13 +1209,11 @@ class Sim:
         itv = self.ev(st.iter, fr)
         elem, cnt, lid = self.iter_desc(itv)
         self.fid += 1
-        lf = LoopFrame(self.fid, "for", cnt)
+        lf = LoopFrame(self.fid, "for", cnt, depth=len(self.frames))
+        self.allframes[lf.fid] = lf
         self.frames.append(lf)
         lv = ("lv", len(self.frames) - 1)
-        fr_loops = getattr(self, "loops", None)
-        if fr_loops is None:
-            self.loops = fr_loops = []
-        fr_loops.append((lf, st, self.ctx))
+        self.loops.append((lf, st, self.ctx))
         try:
             self.assign_target(st.target, elem(lv), fr)
             try:
@@ -1306,6 +1325,8 @@ class Sim:
                     obj.entries[items[0]] = ("bin", op, self.snap(cur), rhs)
             elif base == NONE:
                 self.none_uses.append((self.ctx, t, "in-place operation on None"))
+            elif any(is_tag(x, "unboundlocal", "oob") for x in subterms(base)):
+                pass
             else:
                 raise Unsup(f"in-place operation on `{ast.unparse(t.value)}` whose value is not a tracked object")
         else:
